@@ -63,8 +63,8 @@ Theorem js_index_eq p bs : write_pose p = Ok bs -> wf_arrays p -> (1 <= nth 3 (w
       ~ In (c_name c) (map c_name (skipn (S n) (h_comps (p_header py)))) ->
       let t := point_offset (h_comps (p_header py)) n + l in
       js_cell (jp_frame jp (Z.of_nat i)) j (c_name c) l 67 = Some (VF32 (tget 0%N (py_conf (p_body py)) [i; j; t])) /\
-      forall d x, nth_error (c_format c) d = Some x -> x <> 67%N -> d < D -> ~ In x (skipn (S d) (c_format c)) ->
-        js_cell (jp_frame jp (Z.of_nat i)) j (c_name c) l x = Some (VF32 (tget 0%N (py_data (p_body py)) [i; j; t; d])).
+      forall d x, nth_error (c_format c) d = Some x -> x <> 67%N -> coord_index (c_format c) d < D -> ~ In x (skipn (S d) (c_format c)) ->
+        js_cell (jp_frame jp (Z.of_nat i)) j (c_name c) l x = Some (VF32 (tget 0%N (py_data (p_body py)) [i; j; t; coord_index (c_format c) d])).
 Proof.
   intros H Hwf HD Hplain.
   destruct (write_pose_ok _ _ H) as [F0 [P0 [T0 [D0 [h0 [b0 [Hs [Hcs [Hnd [Htp [Hh0 [Hb0 Ebs]]]]]]]]]]]].
